@@ -37,7 +37,7 @@ LEVEL_KEYS = {
     "to": [1, 2, 3],
     "": [5, 6, 7],               # a falsy level name that is not None
     "iv": ["(0,1]", "(1,2]", "(2,4]"],      # interval keys (histogram bins, R ranges); written as strings in the trace
-    "x": [0.5, 1.5, -2.25],                 # float keys
+    "x": [0.5, 1.5, "<NA>", -2.25],         # float keys, one of them missing (NaN label; written "<NA>" in traces)
 }
 NAMES = ["a", "b", "c", "d", None, "from", "to", "", "iv", "x"]
 
@@ -66,6 +66,8 @@ class UuidSeam:
 # ------------------------------------------------------------------ specs <-> pandas
 
 def _key(name, k):
+    if k == "<NA>":
+        return float("nan")
     if name == "iv" and isinstance(k, str) and k.startswith("("):
         a, b = k[1:-1].split(",")
         return pd.Interval(float(a), float(b), closed="right")
@@ -124,6 +126,10 @@ def snapshot(obj):
 
 
 def _py(k):
+    if isinstance(k, float) and math.isnan(k):
+        return "<NA>"
+    if isinstance(k, (np.floating,)) and np.isnan(k):
+        return "<NA>"
     if isinstance(k, pd.Interval):
         return "(%g,%g]" % (k.left, k.right)
     if isinstance(k, (np.integer,)):
